@@ -9,6 +9,7 @@ Correspondence ops (implementation vs compiled Lean model, every run):
   encode          CommonRoadSolutionWriter(solution).dump(pretty) parsed back into (tag, attributes, children, text)
   decode          CommonRoadSolutionReader.fromstring(document): solution or exception class (valid documents and mutants);
                   the model (decodeDoc) parses the benchmark id from the attribute TEXT with C13's character-level model
+  dict_of         Solution.planning_problem_solutions right after assembly (ids given twice) vs the model's dict
   decode_tokens   the same against the token-level reader core (decodeSol) the theorems are stated about
   py_texts        every number / date / time-step text Python wrote: in the grammar pyNumL / pyDateL / Int.repr the theorems
                   C14_sol_roundtrip_py and C14_sol_valid_xsd assume, and accepted by the Lean xs:float/xs:dateTime/xs:int checkers
@@ -39,10 +40,24 @@ RULE = ("solutions built with the repository's own constructors: every admissibl
         "microseconds), computation time and processor name (XML-special, non-ASCII, blank); pretty and compact output; "
         "dump->fromstring and write_to_file->open; in 40% of the cases a history AFTER Solution(...) was assembled: planning_problem_id / "
         "vehicle_type / cost_function of a PlanningProblemSolution, computation time, processor name, date, scenario id re-assigned, the "
-        "list of planning problems re-set in another order (the written object is compared as it is when written).  Plus constructor calls that must be rejected and mutated documents "
+        "list of planning problems re-set in another order (the written object is compared as it is when written); the history also uses "
+        "the vehicle_model / trajectory setters, Trajectory.append_state / translate_rotate / initial_time_step, in-place edits of a state, "
+        "the same list handed back to the setter, planning problems dropped / appended, and setters that must refuse (non-positive "
+        "computation time, unsupported cost, unfit model / trajectory) followed by writing.  Further dimensions (table DIMENSIONS, checked "
+        "against the real signatures every run): numpy scalar types for ids / time steps / values, constructor defaults (date, computation "
+        "time, processor name omitted), processor name 'auto', an id given twice at assembly, read-only queries before writing "
+        "(incl. create_dynamic_obstacle), one writer reused for a list of dump / write_to_file calls in varying order, default file name and "
+        "default output path, overwrite True/False on fresh and existing files (a refused overwrite must leave a readable document), "
+        "fromstring on str and on bytes.  Plus constructor calls that must be rejected and mutated documents "
         "(dropped/duplicated/renamed elements, bad number text, reordered trajectories, wrong ids) for the reader's error "
         "branches and the validator.  non-trivial = every case; distinct = distinct canonical JSON of the case")
 ASSUMPTIONS = [
+    "outside the quantifier (named, not generated): a solution without planning problems; state values of a narrower float type "
+    "(np.float32 / np.float16: their text is the shortest repr of the narrow type and is read back as a double); a solution edited between "
+    "CommonRoadSolutionWriter(solution) and dump() (the writer serialises in its constructor); a history in which a setter that must refuse "
+    "accepts (counted in excluded_ambiguous, no verdict)",
+    "Trajectory.translate_rotate and Solution.create_dynamic_obstacle are only exercised with moderate angles: util.make_valid_orientation "
+    "subtracts 2*pi in a loop and does not come back in reasonable time for an orientation like 1e300 (not this property's subject)",
     "the theorems take the TEXT Python writes for a number as the number's token (Codec.py): trusted is that str(x) of a finite "
     "float/int is a text of the grammar pyNumL (checked on every written text by the py_texts correspondence) and that the text "
     "determines the value bit for bit, i.e. float(str(x)) == x (sampled on every run by the float.hex oracle); likewise "
@@ -57,7 +72,11 @@ ASSUMPTIONS = [
 TRUSTED = ["lxml/libxml2 XML Schema validator (the Lean validator is compared with it, not proved equal)"]
 REQUIRED_BUCKETS = ["single", "cooperative", "type:PM", "type:ST", "type:KS", "type:KST", "type:MB", "type:Input", "type:PMInput",
                     "unordered", "schema-checked", "schema-not-applicable", "file-path", "pretty", "compact", "mutant", "reject",
-                    "superset-state", "date", "computation-time", "processor-name", "setter-path", "post-edit", "post:pp_id", "post:reorder"]
+                    "superset-state", "date", "computation-time", "processor-name", "setter-path", "post-edit", "post:pp_id", "post:reorder",
+                    "post:model", "post:traj", "post:append_state", "post:edit_state", "post:same_list", "post:drop", "post:append_pps",
+                    "post:init_step", "post:translate_rotate", "post:fail_ct", "post:fail_cost", "post:fail_model", "post:fail_traj",
+                    "numpy-scalars", "ctor-defaults", "duplicate-id", "processor-auto", "queries-first", "writer-reused",
+                    "fromstring-bytes", "default-filename", "default-output-path", "overwrite-refused"]
 WORKERS = {"quick": 1, "thorough": 8}
 
 XSD_PATH = os.path.join(REPO, "commonroad", "scenario_definition", "xml_definition_files", "CommonRoadSolution_schema.xsd")
@@ -99,6 +118,153 @@ COUNTRIES = ["ZAM", "USA", "DEU", "CHN", "ESP", "ITA"]
 MAPS = ["Test", "US101", "Lohmar", "a", "Z9z", "Muc", "Peach"]
 
 _cache = {}
+
+
+
+# ------------------------------------------------------------------------------------------------ dimension table
+# Every constructor parameter, settable attribute, public operation and enum member of the classes the property is anchored in,
+# with how the generator varies it ("=" : cannot influence the observation / outside the quantifier, and why).
+# check_dimensions() compares the table with the real signatures on every run: anything unknown => exit 2.
+VARIED = "varied"
+DIMENSIONS = {
+    # --- module level: a new public class must be looked at
+    **{f"module.{c}": "known class" for c in (
+        "CommonRoadSolutionReader", "CommonRoadSolutionWriter", "CostFunction", "PlanningProblemSolution", "Solution",
+        "SolutionException", "SolutionReaderException", "StateFields", "StateType", "StateTypeException", "SupportedCostFunctions",
+        "TrajectoryType", "VehicleModel", "VehicleType", "XMLStateFields")},
+    # --- PlanningProblemSolution
+    "PlanningProblemSolution.__init__(planning_problem_id)": "0, negative, huge, np.int64 (numpy-scalars); re-assigned after assembly (post:pp_id); given twice (duplicate-id)",
+    "PlanningProblemSolution.__init__(vehicle_model)": "all five; re-set through the setter (post:model, post:fail_model)",
+    "PlanningProblemSolution.__init__(vehicle_type)": "all four; re-assigned (post:vtype)",
+    "PlanningProblemSolution.__init__(cost_function)": "every admissible one; re-set (post:cost); refused ones (post:fail_cost, reject stream)",
+    "PlanningProblemSolution.__init__(trajectory)": "every exact and richer state class, 1..6 states, consecutive/gapped/repeated/shuffled/huge time steps; "
+                                                    "set through the setter before (setter-path) and after assembly (post:traj, post:fail_traj)",
+    "PlanningProblemSolution.vehicle_model[setter]": "post:model / post:fail_model",
+    "PlanningProblemSolution.cost_function[setter]": "post:cost / post:fail_cost",
+    "PlanningProblemSolution.trajectory[setter]": "setter-path, post:traj, post:fail_traj",
+    "PlanningProblemSolution.trajectory_type": "read-only; queried first in queries-first; compared with the model (construct / set_trajectory)",
+    "PlanningProblemSolution.vehicle_id": "read-only; queries-first; observed through the benchmark id",
+    "PlanningProblemSolution.cost_id": "read-only; queries-first; observed through the benchmark id",
+    # --- Solution
+    "Solution.__init__(scenario_id)": "cooperative flag, country, map, ids, behaviour, prediction ids, version; re-assigned (post:scen)",
+    "Solution.__init__(planning_problem_solutions)": "1..4 entries, schema order or not, an id given twice (duplicate-id); re-set: post:reorder, post:same_list, "
+                                                     "post:drop, post:append_pps.  = an empty list is outside the quantifier ('one or several planning problems')",
+    "Solution.__init__(date)": "None, with/without microseconds, years 1000..9999, omitted (ctor-defaults); re-assigned (post:date)",
+    "Solution.__init__(computation_time)": "None, float, int, np.float64, omitted; re-set (post:ct), refused values (post:fail_ct)",
+    "Solution.__init__(processor_name)": "None, blank, XML-special, non-ASCII, 'auto' (processor-auto), omitted; re-assigned (post:proc)",
+    "Solution.planning_problem_solutions[setter]": "post:reorder / same_list / drop / append_pps",
+    "Solution.benchmark_id": "read-only; observed (oracle) and queried first (queries-first)",
+    "Solution.vehicle_ids": "read-only; queries-first",
+    "Solution.cost_ids": "read-only; queries-first",
+    "Solution.planning_problem_ids": "read-only; observed (oracle)",
+    "Solution.trajectory_types": "read-only; observed (oracle)",
+    "Solution.computation_time[setter]": "post:ct / post:fail_ct",
+    "Solution.create_dynamic_obstacle()": "read-only view; called (may raise for input vectors) before writing in queries-first when all state "
+                                          "values are moderate (its orientation normalisation loops ~|angle|/2pi times)",
+    # --- writer
+    "CommonRoadSolutionWriter.__init__(solution)": "fresh writer per call or ONE writer for all calls of a case (writer-reused)",
+    "CommonRoadSolutionWriter.dump()": "first call of every case, repeated in call lists",
+    "CommonRoadSolutionWriter.dump(pretty)": "True / False",
+    "CommonRoadSolutionWriter.write_to_file()": "file-path, several times per writer, after / before dump",
+    "CommonRoadSolutionWriter.write_to_file(output_path)": "a scratch directory; the default './' with the process chdir'ed there (default-output-path)",
+    "CommonRoadSolutionWriter.write_to_file(filename)": "explicit name / None = solution_<benchmark id>.xml (default-filename)",
+    "CommonRoadSolutionWriter.write_to_file(overwrite)": "True/False on a fresh and on an existing file (overwrite-refused: the earlier document must still read back)",
+    "CommonRoadSolutionWriter.write_to_file(pretty)": "True / False",
+    # --- reader
+    "CommonRoadSolutionReader.open()": "file-path",
+    "CommonRoadSolutionReader.open(filepath)": "path of the written file",
+    "CommonRoadSolutionReader.fromstring()": "every dump; mutated documents",
+    "CommonRoadSolutionReader.fromstring(file)": "str and utf-8 bytes (fromstring-bytes)",
+    # --- Trajectory (what a solution holds)
+    "Trajectory.__init__(initial_time_step)": "0, small, 2^31-1 and beyond; mismatching the first state in the reject stream",
+    "Trajectory.__init__(state_list)": "see PlanningProblemSolution.__init__(trajectory)",
+    "Trajectory.check_state_list()": "= called by the constructor only", "Trajectory.check_state_list(state_list)": "= see above",
+    "Trajectory.initial_time_step[setter]": "re-assigned after assembly (post:init_step); the written time steps are the states' own",
+    "Trajectory.append_state()": "post:append_state", "Trajectory.append_state(state)": "a state of the same class with a later time step",
+    "Trajectory.state_list": "read-only accessor; states edited in place (post:edit_state)",
+    "Trajectory.final_state": "read-only; queries-first",
+    "Trajectory.state_at_time_step()": "read-only; queries-first", "Trajectory.state_at_time_step(time_step)": "the initial time step",
+    "Trajectory.states_in_time_interval()": "= read-only, returns a new list; no influence",
+    "Trajectory.states_in_time_interval(time_begin)": "= see above", "Trajectory.states_in_time_interval(time_end)": "= see above",
+    "Trajectory.translate_rotate()": "in-place motion after assembly (post:translate_rotate; raises for input vectors - the state it leaves is written)",
+    "Trajectory.translate_rotate(translation)": "small dyadic vectors", "Trajectory.translate_rotate(angle)": "0, quarter turns, arbitrary",
+    **{f"Trajectory.resample_continuous_time_state_list({a})": "= alternative constructor for continuous-time state lists; produces an ordinary Trajectory, "
+       "which is covered through Trajectory.__init__" for a in ("", "states", "time_stamps_cont", "resampled_dt", "num_resampled_states", "initial_time_cont")},
+    "Trajectory.resample_continuous_time_state_list()": "= see its parameters",
+    "Trajectory.draw()": "= rendering (C19)", "Trajectory.draw(renderer)": "= rendering (C19)", "Trajectory.draw(draw_params)": "= rendering (C19)",
+    # --- enums: every member is generated; a new member must be added to the generator lists and to the Lean model
+    **{f"VehicleModel.{m}": VARIED for m in ("PM", "ST", "KS", "MB", "KST")},
+    **{f"VehicleType.{m}": VARIED for m in ("FORD_ESCORT", "BMW_320i", "VW_VANAGON", "TRUCK")},
+    **{f"CostFunction.{m}": VARIED for m in ALL_COSTS},
+    **{f"{e}.{m}": VARIED for e in ("StateType", "TrajectoryType", "StateFields", "XMLStateFields")
+       for m in ("MB", "ST", "KS", "KST", "PM", "Input", "PMInput")},
+    **{f"SupportedCostFunctions.{m}": "compared with PM_COSTS / ALL_COSTS" for m in ("PM", "ST", "KS", "MB", "KST")},
+    "StateType.fields": "tables correspondence", "StateType.xml_fields": "tables correspondence",
+    "StateType.get_state_type()": "through the constructors; get_state_type correspondence",
+    "StateType.get_state_type(state)": "every state class incl. CustomState with extra attributes",
+    "StateType.get_state_type(desired_vehicle_model)": "given (constructor) and None (trajectory setter)",
+    "StateType.check_state_type()": "= unused helper (looks a model name up in StateFields); no influence",
+    "StateType.check_state_type(vehicle_model)": "= see above",
+    "TrajectoryType.state_type": "tables correspondence",
+    "TrajectoryType.get_trajectory_type()": "through the constructors and the setter",
+    "TrajectoryType.get_trajectory_type(trajectory)": "see PlanningProblemSolution.__init__(trajectory)",
+    "TrajectoryType.get_trajectory_type(desired_vehicle_model)": "given / None",
+    "TrajectoryType.valid_vehicle_model()": "every (type, model) pair: admissible ones in solutions, the others in the reject stream and post:fail_model",
+    "TrajectoryType.valid_vehicle_model(vehicle_model)": "all five",
+}
+
+
+def api_surface():
+    """the same names, read from the code under test"""
+    import inspect
+    import commonroad.common.solution as M
+    from commonroad.scenario.trajectory import Trajectory
+    out = []
+    for n in sorted(vars(M)):
+        c = getattr(M, n)
+        if inspect.isclass(c) and c.__module__ == M.__name__ and not n.startswith("_"):
+            out.append(f"module.{n}")
+
+    def members(cls, cname):
+        if "__init__" in vars(cls):
+            for prm in list(inspect.signature(cls.__init__).parameters)[1:]:
+                out.append(f"{cname}.__init__({prm})")
+        for k, v in vars(cls).items():
+            if k.startswith("_"):
+                continue
+            if isinstance(v, property):
+                out.append(f"{cname}.{k}" + ("[setter]" if v.fset else ""))
+                continue
+            f = v.__func__ if isinstance(v, (staticmethod, classmethod)) else v
+            if inspect.isfunction(f):
+                out.append(f"{cname}.{k}()")
+                ps = list(inspect.signature(f).parameters)
+                for prm in (ps if isinstance(v, staticmethod) else ps[1:]):
+                    out.append(f"{cname}.{k}({prm})")
+    for cname in ("PlanningProblemSolution", "Solution", "CommonRoadSolutionWriter", "CommonRoadSolutionReader"):
+        members(getattr(M, cname), cname)
+    members(Trajectory, "Trajectory")
+    for en in ("VehicleModel", "VehicleType", "CostFunction", "StateType", "TrajectoryType", "StateFields", "XMLStateFields",
+               "SupportedCostFunctions"):
+        out += [f"{en}.{m}" for m in getattr(M, en).__members__]
+        if en in ("StateType", "TrajectoryType"):
+            members(getattr(M, en), en)
+    return out
+
+
+def check_dimensions():
+    from common import InfraError
+    from commonroad.common.solution import SupportedCostFunctions
+    real = set(api_surface())
+    unknown = sorted(real - set(DIMENSIONS))
+    stale = sorted(set(DIMENSIONS) - real)
+    if unknown or stale:
+        raise InfraError("C14 dimension table out of date - look at each and decide how the generator varies it: "
+                         f"unknown to the table {unknown}; no longer in the code {stale}")
+    for m, v in SupportedCostFunctions.__members__.items():
+        want = PM_COSTS if m == "PM" else ALL_COSTS
+        if [c.name for c in v.value] != want:
+            raise InfraError(f"C14: SupportedCostFunctions.{m} changed to {[c.name for c in v.value]}: update the generator's cost lists and the Lean model")
 
 
 # ------------------------------------------------------------------------------------------------ value helpers
@@ -243,27 +409,69 @@ def gen_case(ctx, force_combo=None):
     case = {"kind": "solution", "scen": gen_scen(r, n > 1 and r.random() < 0.8), "pps": pps, "date": gen_date(r), "ct": ct,
             "proc": r.choice(PROC_NAMES) if r.random() < 0.6 else None, "pretty": r.random() < 0.5,
             "file": r.random() < 0.25, "mutseed": r.getrandbits(32)}
-    case["post"] = gen_post(r, case) if r.random() < 0.4 else []
+    if r.random() < 0.15:
+        for p in pps:
+            if r.random() < 0.7 and abs(p["id"]) < 2 ** 62:
+                p["np"] = True              # numpy scalar types for ids, time steps and values
+    case["omit"] = [k for k in ("date", "ct", "proc") if r.random() < 0.12]     # constructor defaults
+    for k in case["omit"]:
+        if k != "date":
+            case[k] = None
+    if r.random() < 0.04:
+        case["proc"] = "auto"               # the documented keyword
+        case["omit"] = [k for k in case["omit"] if k != "proc"]
+    case["dup"] = {"at": r.randrange(n), "vtype": r.randint(1, 4)} if r.random() < 0.08 else None
+    case["post"] = gen_post(r, case) if r.random() < 0.45 else []
+    case["queries"] = r.random() < 0.3
+    case["reuse"] = r.random() < 0.4
+    calls = [{"op": "dump", "pretty": case["pretty"], "bytes": False}]
+    for _ in range(r.choice([0, 0, 1, 2, 3])):
+        if r.random() < 0.5:
+            calls.append({"op": "dump", "pretty": r.random() < 0.5, "bytes": r.random() < 0.5})
+        else:
+            calls.append({"op": "file", "pretty": r.random() < 0.5, "name": r.choice(["explicit", "explicit", "default"]),
+                          "exists": r.random() < 0.4, "overwrite": r.random() < 0.6, "cwd": r.random() < 0.15})
+    if case["file"] and not any(c["op"] == "file" for c in calls):
+        calls.append({"op": "file", "pretty": True, "name": "explicit", "exists": False, "overwrite": True, "cwd": False})
+        calls.append({"op": "file", "pretty": False, "name": "explicit", "exists": False, "overwrite": False, "cwd": False})
+    case["calls"] = calls
     return case
 
 
+def _exact(p):
+    """trajectory type if (model, state class) is an exact pair (the setters re-derive the type without the vehicle model)"""
+    for m, c, t in COMBOS:
+        if m == p["model"] and c == p["cls"]:
+            return t
+    return None
+
+
 def gen_post(r, case):
-    """A history AFTER the Solution object was assembled: public attributes / setters of the solution and of its
-    PlanningProblemSolution objects are re-assigned before writing (a solution is what it holds when it is written)."""
+    """A history AFTER the Solution object was assembled: public attributes / setters of the solution, of its
+    PlanningProblemSolution objects, of their trajectories and states are used before writing — also setters that refuse
+    (a solution is what it holds when it is written)."""
     ops = []
-    n = len(case["pps"])
-    used = {p["id"] for p in case["pps"]}
-    for _ in range(r.choice([1, 1, 2, 3])):
-        k = r.randrange(9)
+    shadow = copy.deepcopy(case["pps"])          # what sits at each position now
+    if case.get("dup"):
+        shadow[case["dup"]["at"]]["vtype"] = case["dup"]["vtype"]
+    used = {p["id"] for p in shadow}
+    want = r.choice([1, 1, 2, 3, 4])
+    for _ in range(8 * want):
+        if len(ops) >= want:
+            break
+        k = r.choice(list(range(22)) + [10, 16, 17, 17, 18, 19])      # (the refusing setters apply to few cases: drawn more often)
+        n = len(shadow)
         i = r.randrange(n)
+        p = shadow[i]
         if k in (0, 1):       # planning_problem_id re-assigned (kept distinct)
-            new = r.choice([x for x in [4, 5, 6, 100, 200, 31337, 10 ** 9, -1, 8] if x not in used])
+            new = r.choice([x for x in [4, 5, 6, 100, 200, 31337, 10 ** 9, -1, 8, 77, 78, 79] if x not in used])
             used.add(new)
+            p["id"] = new
             ops.append(["pp_id", i, new])
         elif k == 2:
             ops.append(["vtype", i, r.randint(1, 4)])
         elif k == 3:
-            ops.append(["cost", i, r.choice(PM_COSTS if case["pps"][i]["model"] == "PM" else ALL_COSTS)])
+            ops.append(["cost", i, r.choice(PM_COSTS if p["model"] == "PM" else ALL_COSTS)])
         elif k == 4:
             ops.append(["ct", r.choice([None, enc(0.5), enc(abs(gen_value(r, False)) or 2.5), 3])])
         elif k == 5:
@@ -272,10 +480,60 @@ def gen_post(r, case):
             ops.append(["date", gen_date(r)])
         elif k == 7:
             ops.append(["scen", gen_scen(r, case["scen"]["cooperative"])])
-        else:
+        elif k == 8:
             perm = list(range(n))
             r.shuffle(perm)
+            shadow = [shadow[j] for j in perm]
             ops.append(["reorder", perm])
+        elif k == 9:
+            ops.append(["same_list"])
+        elif k == 10 and _exact(p) == "Input":      # another vehicle model the input vector is admissible for
+            new = r.choice([m for m in ["KS", "ST", "MB"] if m != p["model"]])
+            p["model"] = new
+            ops.append(["model", i, new])
+        elif k == 11 and _exact(p) is not None and not p.get("np"):     # a new trajectory through the setter
+            ts, _ = gen_times(r)
+            at = gen_attrs(r, p["cls"])
+            t = {"cls": p["cls"], "init": ts[0], "states": [gen_state(r, p["cls"], x, at) for x in ts]}
+            p["init"], p["states"] = t["init"], t["states"]
+            ops.append(["traj", i, t])
+        elif k == 12 and not p.get("np"):           # Trajectory.append_state in place
+            last = p["states"][-1]
+            t_last = dict(last)["time_step"]
+            st = gen_state(r, p["cls"], t_last + r.choice([1, 1, 3]), [a for a, _ in last])
+            p["states"] = p["states"] + [st]
+            ops.append(["append_state", i, p["cls"], st])
+        elif k == 13:                               # a state attribute overwritten in place
+            j = r.randrange(len(p["states"]))
+            names = [a for a, _ in p["states"][j] if a != "time_step"]
+            a = r.choice(names)
+            v = [enc(gen_value(r, False)), enc(gen_value(r, False))] if a == "position" else enc(gen_value(r))
+            p["states"][j] = [[x, (v if x == a else y)] for x, y in p["states"][j]]
+            ops.append(["edit_state", i, j, a, v])
+        elif k == 14 and n > 1:
+            del shadow[i]
+            ops.append(["drop", i])
+        elif k == 15 and n < 5:
+            new = r.choice([x for x in [11, 12, 13, 500, 600] if x not in used])
+            used.add(new)
+            q = gen_pps(r, new)
+            shadow.append(q)
+            ops.append(["append_pps", copy.deepcopy(q)])
+        elif k == 20:
+            ops.append(["init_step", i, r.choice([0, 1, 7, dict(p["states"][0])["time_step"], 10 ** 6])])
+        elif k == 21 and all(abs(float(dec(v))) < 1e4 for st in p["states"] for a, v in st if a == "orientation"):
+            # (Trajectory.translate_rotate normalises orientations with a subtract-2*pi loop: moderate angles only)
+            ops.append(["translate_rotate", i, [enc(r.randint(-64, 64) / 16.0), enc(r.randint(-64, 64) / 16.0)],
+                        enc(r.choice([0.0, 1.5707963267948966, 3.141592653589793, r.uniform(-3, 3)]))])
+        elif k == 16:                               # refused: computation time must be positive
+            ops.append(["fail_ct", r.choice([enc(-1.0), 0, enc(-0.0), enc(-5e-324)])])
+        elif k == 17 and p["model"] == "PM":        # refused: cost function not supported by PM
+            ops.append(["fail_cost", i, r.choice([c for c in ALL_COSTS if c not in PM_COSTS])])
+        elif k == 18 and _exact(p) in ("PM", "ST", "KS", "MB", "KST", "PMInput"):   # refused: model does not fit the trajectory
+            ops.append(["fail_model", i, r.choice([m for m in ["PM", "ST", "KS", "MB", "KST"] if m != p["model"]])])
+        elif k == 19 and _exact(p) in ("KS", "ST", "MB", "KST"):     # refused: a PM input vector for a non-PM model
+            at = gen_attrs(r, "PMInputState")
+            ops.append(["fail_traj", i, {"cls": "PMInputState", "init": 0, "states": [gen_state(r, "PMInputState", 0, at)]}])
     return [o for o in ops if not (o[0] == "ct" and o[1] is not None and dec(o[1]) == 0)]
 
 
@@ -327,7 +585,15 @@ def gen_reject(ctx):
 
 # ------------------------------------------------------------------------------------------------ building real objects
 
-def build_state(cls, pairs):
+def npify(v):
+    """the same number as a numpy scalar (np.float64 / np.int64), where it fits"""
+    import numpy as np
+    if isinstance(v, int):
+        return np.int64(v) if -2 ** 63 <= v < 2 ** 63 else v
+    return np.float64(v)
+
+
+def build_state(cls, pairs, np_scalars=False):
     import numpy as np
     import commonroad.scenario.state as S
     kw = {}
@@ -336,9 +602,9 @@ def build_state(cls, pairs):
             x, y = dec(v[0]), dec(v[1])
             kw[a] = np.array([x, y])
         elif a == "time_step":
-            kw[a] = v
+            kw[a] = npify(v) if np_scalars else v
         else:
-            kw[a] = dec(v)
+            kw[a] = npify(dec(v)) if np_scalars else dec(v)
     if cls.startswith("Custom:"):
         return S.CustomState(**kw)
     return getattr(S, cls)(**kw)
@@ -347,7 +613,10 @@ def build_state(cls, pairs):
 def build_pps(p):
     from commonroad.common.solution import CostFunction, PlanningProblemSolution, VehicleModel, VehicleType
     from commonroad.scenario.trajectory import Trajectory
-    tr = Trajectory(p["init"], [build_state(p["cls"], s) for s in p["states"]])
+    tr = Trajectory(p["init"], [build_state(p["cls"], s, p.get("np", False)) for s in p["states"]])
+    if p.get("np"):
+        pid = npify(p["id"])
+        return PlanningProblemSolution(pid, VehicleModel[p["model"]], VehicleType(p["vtype"]), CostFunction[p["cost"]], tr)
     decoy = _decoy_trajectory(p)
     if decoy is not None and p["id"] % 3 == 1:
         # the solution is constructed with the OTHER admissible trajectory kind first and gets its real trajectory through the
@@ -378,41 +647,125 @@ def _decoy_trajectory(p):
     return Trajectory(0, [S.InputState(time_step=0, steering_angle_speed=0.0, acceleration=0.0)])
 
 
-def build_solution(case):
+def build_solution(case, info=None):
     from commonroad.common.solution import Solution
     from commonroad.scenario.scenario import ScenarioID
     s = case["scen"]
     sid = ScenarioID(s["cooperative"], s["country"], s["map"], s["map_id"], s["config"], s["behavior"], s["pred"], s["version"])
-    date = datetime(*case["date"]) if case["date"] is not None else None
-    ct = dec(case["ct"]) if case["ct"] is not None else None
-    sol = Solution(sid, [build_pps(p) for p in case["pps"]], date, ct, case["proc"])
-    apply_post(sol, case.get("post") or [])
+    specs = list(case["pps"])
+    if case.get("dup"):         # a second PlanningProblemSolution with an id that is already in the list: the dict keeps one
+        extra = copy.deepcopy(specs[case["dup"]["at"]])
+        extra["vtype"] = case["dup"]["vtype"]
+        specs.append(extra)
+    built = [build_pps(p) for p in specs]
+    kw = {}
+    omit = case.get("omit") or []
+    if "date" not in omit:
+        kw["date"] = datetime(*case["date"]) if case["date"] is not None else None
+    if "ct" not in omit:
+        kw["computation_time"] = dec(case["ct"]) if case["ct"] is not None else None
+    if "proc" not in omit:
+        kw["processor_name"] = case["proc"]
+    sol = Solution(sid, built, **kw)
+    if info is not None:
+        info["built"] = [canon_pps(p) for p in built]
+        info["assembled"] = [canon_pps(p) for p in sol.planning_problem_solutions]
+        info["unexpected"] = []
+    un = apply_post(sol, case.get("post") or [])
+    if info is not None:
+        info["unexpected"] = un
     return sol
 
 
 def apply_post(sol, ops):
-    from commonroad.common.solution import CostFunction, VehicleType
+    """history after assembly; returns the labels of operations that were expected to raise but did not"""
+    import numpy as np
+    from commonroad.common.solution import CostFunction, VehicleModel, VehicleType
     from commonroad.scenario.scenario import ScenarioID
+    from commonroad.scenario.trajectory import Trajectory
+    unexpected = []
+
+    def must_fail(label, f):
+        try:
+            f()
+        except Exception:   # noqa: the refusal is what is expected; the state it leaves is what is observed
+            return
+        unexpected.append(label)
+
     for op in ops:
         pps = sol.planning_problem_solutions
-        if op[0] == "pp_id":
+        k = op[0]
+        if k == "pp_id":
             pps[op[1]].planning_problem_id = op[2]
-        elif op[0] == "vtype":
+        elif k == "vtype":
             pps[op[1]].vehicle_type = VehicleType(op[2])
-        elif op[0] == "cost":
+        elif k == "cost":
             pps[op[1]].cost_function = CostFunction[op[2]]
-        elif op[0] == "ct":
+        elif k == "model":
+            pps[op[1]].vehicle_model = VehicleModel[op[2]]
+        elif k == "traj":
+            t = op[2]
+            pps[op[1]].trajectory = Trajectory(t["init"], [build_state(t["cls"], st) for st in t["states"]])
+        elif k == "append_state":
+            pps[op[1]].trajectory.append_state(build_state(op[2], op[3]))
+        elif k == "init_step":
+            pps[op[1]].trajectory.initial_time_step = op[2]
+        elif k == "translate_rotate":
+            try:    # raises for states without a position (input vectors): what it leaves behind is what is written
+                pps[op[1]].trajectory.translate_rotate(np.array([dec(op[2][0]), dec(op[2][1])]), dec(op[3]))
+            except Exception:   # noqa
+                pass
+        elif k == "edit_state":
+            st = pps[op[1]].trajectory.state_list[op[2]]
+            setattr(st, op[3], np.array([dec(op[4][0]), dec(op[4][1])]) if op[3] == "position" else dec(op[4]))
+        elif k == "ct":
             sol.computation_time = dec(op[1]) if op[1] is not None else None
-        elif op[0] == "proc":
+        elif k == "proc":
             sol.processor_name = op[1]
-        elif op[0] == "date":
+        elif k == "date":
             sol.date = datetime(*op[1]) if op[1] is not None else None
-        elif op[0] == "scen":
+        elif k == "scen":
             s = op[1]
             sol.scenario_id = ScenarioID(s["cooperative"], s["country"], s["map"], s["map_id"], s["config"], s["behavior"],
                                          s["pred"], s["version"])
-        elif op[0] == "reorder":
+        elif k == "reorder":
             sol.planning_problem_solutions = [pps[j] for j in op[1]]
+        elif k == "same_list":      # the list the getter returned is handed back to the setter
+            sol.planning_problem_solutions = pps
+        elif k == "drop":
+            sol.planning_problem_solutions = [q for j, q in enumerate(pps) if j != op[1]]
+        elif k == "append_pps":
+            sol.planning_problem_solutions = pps + [build_pps(op[1])]
+        elif k == "fail_ct":
+            must_fail(k, lambda: setattr(sol, "computation_time", dec(op[1])))
+        elif k == "fail_cost":
+            must_fail(k, lambda: setattr(pps[op[1]], "cost_function", CostFunction[op[2]]))
+        elif k == "fail_model":
+            must_fail(k, lambda: setattr(pps[op[1]], "vehicle_model", VehicleModel[op[2]]))
+        elif k == "fail_traj":
+            t = op[2]
+            must_fail(k, lambda: setattr(pps[op[1]], "trajectory", Trajectory(t["init"], [build_state(t["cls"], st) for st in t["states"]])))
+        else:
+            raise ValueError("unknown history operation " + str(k))
+    return unexpected
+
+
+def run_queries(sol):
+    """read-only queries before the observation (lazily computed values, derived lists, the obstacle view)"""
+    qs = [lambda: sol.benchmark_id, lambda: sol.vehicle_ids, lambda: sol.cost_ids, lambda: sol.planning_problem_ids,
+          lambda: sol.trajectory_types, lambda: sol.computation_time]
+    # the obstacle view normalises orientations with a subtract-2*pi loop (util.make_valid_orientation): only for moderate values
+    moderate = all(abs(float(x)) < 1e4 for p in sol.planning_problem_solutions for st in p.trajectory.state_list
+                   for a in st.attributes if a not in ("position", "time_step") and getattr(st, a) is not None
+                   for x in [getattr(st, a)])
+    if moderate:
+        qs.append(lambda: sol.create_dynamic_obstacle())
+    for p in sol.planning_problem_solutions:
+        qs += [lambda p=p: (p.trajectory_type, p.vehicle_id, p.cost_id, p.vehicle_model, p.cost_function),
+               lambda p=p: p.trajectory.final_state, lambda p=p: p.trajectory.state_at_time_step(p.trajectory.initial_time_step),
+               lambda p=p: [st.attributes for st in p.trajectory.state_list]]
+    for q in qs:
+        call(q)
 
 
 # ------------------------------------------------------------------------------------------------ canonical forms
@@ -834,13 +1187,13 @@ def check_construct(ctx, case):
     out = []
     for p in case["pps"]:
         try:
-            states = [build_state(p["cls"], s) for s in p["states"]]
+            states = [build_state(p["cls"], s, p.get("np", False)) for s in p["states"]]
         except Exception:   # a state the generator could not build is not a case
             return None
         res = call(build_pps, p)
         impl = {"ok": res[1].trajectory_type.name} if res[0] == "ok" else {"err": res[1]}
         decoy = _decoy_trajectory(p)
-        if decoy is not None and p["id"] % 3 == 1:
+        if decoy is not None and p["id"] % 3 == 1 and not p.get("np"):
             ctx.tag("setter-path")
             args = pps_args(p, [canon_state(s) for s in states])
             args["decoy"] = {"init": int(decoy.initial_time_step), "states": [canon_state(s) for s in decoy.state_list]}
@@ -866,26 +1219,138 @@ def blame_types(sol, pretty):
     from commonroad.common.solution import CommonRoadSolutionReader, CommonRoadSolutionWriter, Solution
     out = set()
     for p in sol.planning_problem_solutions:
-        one = Solution(sol.scenario_id, [p], sol.date, sol.computation_time, sol.processor_name)
-        if call(lambda: CommonRoadSolutionReader.fromstring(CommonRoadSolutionWriter(one).dump(pretty)))[0] != "ok":
+        def attempt(p=p):
+            one = Solution(sol.scenario_id, [p], None, None, None)
+            return CommonRoadSolutionReader.fromstring(CommonRoadSolutionWriter(one).dump(pretty))
+        if call(attempt)[0] != "ok":
             out.add(p.trajectory_type.name)
-    return sorted(out) or ["cooperative"]
+    return sorted(out) or ["solution"]
+
+
+def default_calls(case):
+    """stored cases from before the call lists existed"""
+    calls = [{"op": "dump", "pretty": case["pretty"], "bytes": False}]
+    if case.get("file"):
+        calls += [{"op": "file", "pretty": True, "name": "explicit", "exists": False, "overwrite": True, "cwd": False},
+                  {"op": "file", "pretty": False, "name": "explicit", "exists": False, "overwrite": True, "cwd": False}]
+    return calls
+
+
+def run_calls(ctx, case, sol):
+    """every writer / reader call of the case, each judged by the oracle; returns (document, read result) of the first dump"""
+    from commonroad.common.solution import CommonRoadSolutionReader, CommonRoadSolutionWriter
+    calls = case.get("calls") or default_calls(case)
+    shared = None
+    if case.get("reuse"):
+        ctx.tag("writer-reused")
+        mk = call(lambda: CommonRoadSolutionWriter(sol))
+        if mk[0] != "ok":
+            for t in blame_types(sol, True):
+                ctx.fail(f"C14/dump/raises-{mk[1]}/{t}", f"constructing the writer raises {mk[2]}", case)
+            return None, None
+        shared = mk[1]
+    first = (None, None)
+    wdir = None
+    for n_call, c in enumerate(calls):
+        pretty = c["pretty"]
+        if c["op"] == "dump":
+            ctx.tag("pretty" if pretty else "compact")
+            w = call(lambda: (shared or CommonRoadSolutionWriter(sol)).dump(pretty))
+            if w[0] != "ok":
+                for t in blame_types(sol, pretty):
+                    ctx.fail(f"C14/dump/raises-{w[1]}/{t}", f"writing raises {w[2]}", case)
+                if n_call == 0:
+                    return None, None
+                continue
+            doc = w[1]
+            if c.get("bytes"):
+                ctx.tag("fromstring-bytes")
+            rd = call(CommonRoadSolutionReader.fromstring, doc.encode("utf-8") if c.get("bytes") and isinstance(doc, str) else doc)
+            if rd[0] != "ok":
+                for t in blame_types(sol, pretty):
+                    ctx.fail(f"C14/fromstring/raises-{rd[1]}/{t}", f"reading the written document raises {rd[2]}", case)
+            else:
+                oracle_roundtrip(ctx, case, sol, rd[1], "fromstring")
+            oracle_schema(ctx, case, sol, doc)
+            if n_call == 0:
+                first = (doc, rd)
+            continue
+        # ---- write_to_file -> open
+        ctx.tag("file-path")
+        if wdir is None:
+            wdir = os.path.join(ctx.tmpdir(), f"case{ctx.evaluations}")
+            os.makedirs(wdir, exist_ok=True)
+        name = f"s{n_call}.xml" if c["name"] == "explicit" else None
+        path = os.path.join(wdir, name if name is not None else "solution_%s.xml" % sol.benchmark_id)
+        if name is None:
+            ctx.tag("default-filename")
+        if c.get("exists") and not os.path.exists(path):
+            call(lambda: (shared or CommonRoadSolutionWriter(sol)).write_to_file(wdir, name, overwrite=True, pretty=not pretty))
+        expect_refusal = os.path.exists(path) and not c["overwrite"]     # the documented FileExistsError
+        if expect_refusal:
+            ctx.tag("overwrite-refused")
+
+        def write():
+            wr = shared or CommonRoadSolutionWriter(sol)
+            if c.get("cwd"):
+                old = os.getcwd()
+                os.chdir(wdir)
+                try:
+                    return wr.write_to_file(filename=name, overwrite=c["overwrite"], pretty=pretty)
+                finally:
+                    os.chdir(old)
+            return wr.write_to_file(wdir, name, overwrite=c["overwrite"], pretty=pretty)
+        if c.get("cwd"):
+            ctx.tag("default-output-path")
+        wf = call(write)
+        if wf[0] != "ok" and not expect_refusal:
+            ctx.fail(f"C14/write_to_file/raises-{wf[1]}/pretty={pretty}", f"write_to_file(pretty={pretty}) raises {wf[2]}", case)
+            continue
+        # whatever is in the file now (after a refused overwrite: the earlier document) must read back as the solution
+        ro = call(CommonRoadSolutionReader.open, path)
+        if ro[0] != "ok":
+            for t in blame_types(sol, pretty):
+                ctx.fail(f"C14/open/raises-{ro[1]}/{t}", f"opening the written file raises {ro[2]}", case)
+        else:
+            oracle_roundtrip(ctx, case, sol, ro[1], "open")
+    if wdir is not None:
+        import shutil
+        shutil.rmtree(wdir, ignore_errors=True)
+    return first
 
 
 def run_solution(ctx, case, model=True):
-    from commonroad.common.solution import CommonRoadSolutionReader, CommonRoadSolutionWriter
-    res = call(build_solution, case)
+    info = {}
+    res = call(build_solution, case, info)
     if res[0] != "ok":
-        # the generator only asks for admissible solutions: a refusal here is a failure of the constructors
-        ctx.fail(f"C14/construct/raises-{res[1]}", f"an admissible solution was refused: {res[2]}", case)
+        # the generator only asks for admissible solutions and admissible histories: a refusal here is a failure of the code
+        ctx.fail(f"C14/construct/raises-{res[1]}", f"an admissible solution / history was refused: {res[2]}", case)
         return
     sol = res[1]
+    if info.get("unexpected"):
+        # a setter that must refuse (non-positive computation time, unsupported cost, unfit model / trajectory) accepted: what the
+        # object holds now is not a solution in the property's quantifier - no verdict
+        ctx.excluded += 1
+        return
+    import math
+    import numpy as np
+    if not all(math.isfinite(float(x)) for p in sol.planning_problem_solutions for st in p.trajectory.state_list for a in st.attributes
+               if a != "time_step" and getattr(st, a) is not None for x in np.atleast_1d(getattr(st, a))):
+        ctx.excluded += 1       # the history (translate_rotate of huge values) produced a non-finite value: outside 'finite state values'
+        return
     types = [t.name for t in sol.trajectory_types]
     ctx.tag("single" if len(types) == 1 else "cooperative", *["type:" + t for t in set(types)])
-    ctx.tag("pretty" if case["pretty"] else "compact")
     for op in case.get("post") or []:
         ctx.tag("post-edit", "post:" + op[0])
-    if not any(op[0] == "reorder" for op in case.get("post") or []) and \
+    if any(p.get("np") for p in case["pps"]):
+        ctx.tag("numpy-scalars")
+    if case.get("omit"):
+        ctx.tag("ctor-defaults")
+    if case.get("dup"):
+        ctx.tag("duplicate-id")
+    if case.get("proc") == "auto":
+        ctx.tag("processor-auto")
+    if not case.get("post") and not case.get("dup") and \
             any(p["cls"] not in STATE_CLASS.values() or STATE_CLASS[t] != p["cls"] for p, t in zip(case["pps"], types)):
         ctx.tag("superset-state")
     if any([s.time_step for s in p.trajectory.state_list] != sorted(s.time_step for s in p.trajectory.state_list)
@@ -895,45 +1360,21 @@ def run_solution(ctx, case, model=True):
         if case[k] is not None:
             ctx.tag(b)
     ctx.case(case)
+    if case.get("queries"):
+        ctx.tag("queries-first")
+        run_queries(sol)
 
-    w = call(lambda: CommonRoadSolutionWriter(sol).dump(case["pretty"]))
-    if w[0] != "ok":
-        for t in blame_types(sol, case["pretty"]):
-            ctx.fail(f"C14/dump/raises-{w[1]}/{t}", f"writing raises {w[2]}", case)
+    doc, rd = run_calls(ctx, case, sol)
+    if doc is None:
         return
-    doc = w[1]
-    rd = call(CommonRoadSolutionReader.fromstring, doc)
-    if rd[0] != "ok":
-        for t in blame_types(sol, case["pretty"]):
-            ctx.fail(f"C14/fromstring/raises-{rd[1]}/{t}", f"reading the written document raises {rd[2]}", case)
-    else:
-        oracle_roundtrip(ctx, case, sol, rd[1], "fromstring")
-    oracle_schema(ctx, case, sol, doc)
-
-    if case.get("file"):
-        ctx.tag("file-path")
-        d = ctx.tmpdir()
-        for pretty in (True, False):
-            path = os.path.join(d, f"sol_{ctx.evaluations}_{int(pretty)}.xml")
-            wf = call(lambda: CommonRoadSolutionWriter(sol).write_to_file(d, os.path.basename(path), overwrite=True, pretty=pretty))
-            if wf[0] != "ok":
-                ctx.fail(f"C14/write_to_file/raises-{wf[1]}/pretty={pretty}", f"write_to_file(pretty={pretty}) raises {wf[2]}", case)
-                continue
-            ro = call(CommonRoadSolutionReader.open, path)
-            if ro[0] != "ok":
-                for t in blame_types(sol, pretty):
-                    ctx.fail(f"C14/open/raises-{ro[1]}/{t}", f"opening the written file raises {ro[2]}", case)
-            else:
-                oracle_roundtrip(ctx, case, sol, ro[1], "open")
-            try:
-                os.unlink(path)
-            except OSError:
-                pass
 
     if not model:
         return
     # ---- correspondence with the Lean model
     check_construct(ctx, case)
+    if info.get("built") is not None:
+        ctx.compare(case, info["assembled"], ctx.driver.ask("C14", "dict_of", {"pps": info["built"]}),
+                    "Solution.planning_problem_solutions after assembly vs CR.Sol.dictOf (ids given twice)")
     csol = canon_solution(sol)
     auto = auto_name()
     raw = doc_tree(doc, canonical=False)
@@ -984,6 +1425,7 @@ def run_case(ctx, case, model=True):
 
 
 def run(ctx):
+    check_dimensions()
     check_static(ctx)
     for p in sorted(glob.glob(os.path.join(CORPUS_DIR, "C14", "*.json"))):
         run_case(ctx, json.load(open(p)))
@@ -1039,7 +1481,18 @@ def shrink(case, key):
         del cand["post"][i]
         if still(cand):
             cur = cand
-    if cur.get("post"):          # the remaining edits refer to planning problems by position: keep the list as it is
+    if cur.get("calls"):
+        for i in range(len(cur["calls"]) - 1, 0, -1):
+            cand = copy.deepcopy(cur)
+            del cand["calls"][i]
+            if still(cand):
+                cur = cand
+    for k, v in (("queries", False), ("reuse", False)):
+        cand = copy.deepcopy(cur)
+        cand[k] = v
+        if still(cand):
+            cur = cand
+    if cur.get("post") or cur.get("dup"):   # the remaining edits refer to planning problems by position: keep the list as it is
         for k in ("date", "ct", "proc"):
             cand = copy.deepcopy(cur)
             cand[k] = None
@@ -1065,8 +1518,15 @@ def shrink(case, key):
         cand[k] = None
         if still(cand):
             cur = cand
-    cand = copy.deepcopy(cur)
-    cand["file"] = False
-    if still(cand):
-        cur = cand
+    for k, v in (("file", False), ("queries", False), ("reuse", False), ("omit", []), ("dup", None)):
+        cand = copy.deepcopy(cur)
+        cand[k] = v
+        if still(cand):
+            cur = cand
+    if cur.get("calls"):
+        for i in range(len(cur["calls"]) - 1, 0, -1):
+            cand = copy.deepcopy(cur)
+            del cand["calls"][i]
+            if still(cand):
+                cur = cand
     return cur
